@@ -81,6 +81,22 @@ def _specs():
         add("OLEQ/" + fr, "am", lambda F, g, a, m, P, fr=fr: F.OLEQ(a, m, frame=fr, **P.get("oleq", {})).Q)
     add("TRIAD/rotmat", "am", lambda F, g, a, m, P: F.TRIAD(a, m, **P.get("triad", {})).A, "rotmat")
     add("TRIAD/quaternion", "am", lambda F, g, a, m, P: F.TRIAD(a, m, representation="quaternion", **P.get("triad", {})).A)
+    # the per-sample entry point of the single-frame estimators (one object, estimate() called for every sample of the history)
+    def per_sample(new, est=None):
+        def fn(F, g, a, m, P):
+            f = new(F, P)
+            return np.array([np.asarray((est or (lambda f_, x, y: f_.estimate(x, y)))(f, a[t].copy(), m[t].copy()), float) for t in range(len(a))])
+        return fn
+    add("Tilt.estimate", "am", per_sample(lambda F, P: F.Tilt()))
+    add("Tilt.estimate/acc-only", "a", per_sample(lambda F, P: F.Tilt(), lambda f_, x, y: f_.estimate(x)))
+    add("SAAM.estimate", "am", per_sample(lambda F, P: F.SAAM()))
+    add("FAMC.estimate", "am", per_sample(lambda F, P: F.FAMC()))
+    add("FQA.estimate", "am", per_sample(lambda F, P: F.FQA(**P.get("fqa", {}))))
+    add("QUEST.estimate", "am", per_sample(lambda F, P: F.QUEST(**P.get("dip", {}))))
+    add("Davenport.estimate", "am", per_sample(lambda F, P: F.Davenport(**P.get("dip", {}))))
+    add("FLAE.estimate/eig", "am", per_sample(lambda F, P: F.FLAE(**P.get("dip", {})), lambda f_, x, y: f_.estimate(x, y, method="eig")))
+    add("AQUA.estimate", "am", per_sample(lambda F, P: F.AQUA(**P.get("aqua", {}))))
+    add("TRIAD.estimate", "am", per_sample(lambda F, P: F.TRIAD(**P.get("triad", {})), lambda f_, x, y: f_.estimate(x, y, "quaternion")))
     # one instance fed sample by sample, the magnetometer present on some samples and absent on others (the update methods
     # of these filters take the sample's sensors as arguments, so the architecture may change from one sample to the next)
     def mixed(new, imu, marg):
@@ -204,6 +220,9 @@ def make_history(rng, kind, n, psi=None):
             if kind == "consistent":
                 a = a + rng.standard_normal((n, 3)) * 0.01 * sa
                 m = m + rng.standard_normal((n, 3)) * 0.01 * sm
+    if kind in ("random", "consistent", "moving") and rng.random() < 0.25:
+        k_ = gens.logu(rng, 1e-12, 1e12)        # both field sensors in units far from the usual ones (tesla, raw counts): a common factor, directions unchanged
+        a, m = a * k_, m * k_
     for i in range(n):   # the property's domain: non-zero samples, acc and mag at least 1 degree from parallel
         if np.linalg.norm(a[i]) == 0:
             a[i] = [0, 0, 1.0]
